@@ -95,7 +95,10 @@ def fingerprint():
                 out[i] = hash(tuple((k if isinstance(k, (int, str)) else id(k), id(v)) for k, v in obj.items()))
             elif isinstance(obj, (list, set)):
                 out[i] = hash(tuple(sorted(id(v) for v in obj)) if isinstance(obj, set) else tuple(id(v) for v in obj))
-            elif isinstance(obj, (type, types.ModuleType)):
+            elif isinstance(obj, types.ModuleType):
+                # (a sub-module appearing as an attribute of its package is an import effect, not program state)
+                out[i] = hash(tuple((k, id(v)) for k, v in vars(obj).items() if not isinstance(v, types.ModuleType)))
+            elif isinstance(obj, type):
                 out[i] = hash(tuple((k, id(v)) for k, v in vars(obj).items()))
             else:
                 out[i] = hash(tuple((k, id(v)) for k, v in vars(obj).items()))
